@@ -4,6 +4,8 @@
 export GOFLAGS=-mod=mod GOPROXY=off GOSUMDB=off GOTOOLCHAIN=local
 ID=$1; TIER=$2; OUT=$3
 V=$(cd "$(dirname "$0")/.." && pwd)
+REPO=${GOVC_REPO:-/repo}
+RV=${GOVC_VERIF_OUT:-$V}
 S=$(mktemp -d /var/tmp/govc-standin-XXXXXX)
 trap 'rm -rf "$S"' EXIT
 rc=0
@@ -13,8 +15,8 @@ run_test() { # <pkgdir> <testfile> <testname> <resultjson>
 }
 case "$ID" in
 C10|C11)
-  run_test /repo "$V/standins/filter_standin_test.go" TestGovcStandinFilter "$S/filter.json" || exit 3
-  python3 - "$ID" "$S/filter.json" "$OUT" "$V" "$TIER" <<'PY'
+  run_test "$REPO" "$V/standins/filter_standin_test.go" TestGovcStandinFilter "$S/filter.json" || exit 3
+  python3 - "$ID" "$S/filter.json" "$OUT" "$RV" "$TIER" <<'PY'
 import json,sys,os
 pid,res,out,V,tier=sys.argv[1:6]
 r=json.load(open(res))
@@ -42,6 +44,33 @@ if viol:
     os.makedirs(V+"/replays",exist_ok=True)
     rp=V+"/replays/%s-standin.filter.json"%pid
     json.dump({"obligation":"standin.filter","kind":"bounded stand-in","failures":viol,"result":r,"how_to_rerun":"./check %s %s"%(pid,tier)},open(rp,"w"),indent=1)
+    print("VIOLATION property=%s replay=%s"%(pid,rp))
+    sys.exit(1)
+PY
+  rc=$?
+  ;;
+C18)
+  run_test "$REPO" "$V/standins/followlinks_standin_test.go" TestGovcStandinFollowLinks "$S/fl.json" || exit 3
+  python3 - "$ID" "$S/fl.json" "$OUT" "$RV" "$TIER" <<'PY'
+import json,sys,os
+pid,res,out,V,tier=sys.argv[1:6]
+r=json.load(open(res))
+viol=[]
+if r["hangs"]>0 or r["not_sorted_or_nested"]>0 or r["closure_violations_outside_known_classes"]>0 or r["root_mismatch"]>0:
+    viol=r["failures"] or ["see counts"]
+if r["known_class_F7_dotdot_after_link"]>0:
+    print("KNOWN-FINDING: property=C18 standin.followlinks.F7 %d enumerated cases: a link target or request contains '..' directly after a component that is a symlink; FollowLinks cleans it lexically, so the traversed link / true final location is not covered"%r["known_class_F7_dotdot_after_link"])
+if r["known_class_F8_link_revisited"]>0:
+    print("KNOWN-FINDING: property=C18 standin.followlinks.F8 %d enumerated cases: the same symlink is reached twice with different remainders; the resolved-set doubles as cycle guard and cuts the second traversal short, so its final location is not covered"%r["known_class_F8_link_revisited"])
+entry={"name":"FollowLinks vs independent chroot-style reference resolver","bounded":True,
+ "bound":"trees {d1, d2, g, d2/g, l1, d1/l2} with both symlink targets ranging over 14 targets (relative, absolute, '..' beyond root, chains, cycles, dangling) x 12 request lists incl. wildcards",
+ "evaluations":r["evaluations"],"distinct_nontrivial":r["distinct_nontrivial"],"exhaustive":True,"hangs":r["hangs"],"not_sorted_or_nested":r["not_sorted_or_nested"],
+ "closure_violations_outside_known_classes":r["closure_violations_outside_known_classes"],"known_class_F7":r["known_class_F7_dotdot_after_link"],"known_class_F8":r["known_class_F8_link_revisited"],"samples":r["samples"]}
+json.dump({"bounded_standins":[entry]},open(out,"w"),indent=1)
+if viol:
+    os.makedirs(V+"/replays",exist_ok=True)
+    rp=V+"/replays/%s-standin.followlinks.json"%pid
+    json.dump({"obligation":"standin.followlinks","kind":"bounded stand-in","failures":viol,"result":r,"how_to_rerun":"./check %s %s"%(pid,tier)},open(rp,"w"),indent=1)
     print("VIOLATION property=%s replay=%s"%(pid,rp))
     sys.exit(1)
 PY
